@@ -52,6 +52,12 @@ def _viol(ctx, cls, msg, desc, prop=False):
         ctx.violation(f'model and implementation disagree ({cls}): {msg}'[:700], d, no_input=True)
 
 
+def _is_argsort(u, order):
+    """the hypothesis is_argsort of c12_numpy_rule_is_legal, on one array: a permutation of the indices with
+    non-decreasing values"""
+    return sorted(order) == list(range(len(u))) and all(u[a] <= u[b] for a, b in zip(order, order[1:]))
+
+
 def _world_desc(base, world, **kw):
     w = dict(world)
     if w.get('override') is not None:
@@ -139,6 +145,10 @@ def function_part(ctx, base, worlds):
         for flag, u, ch in h[1]:
             if flag:
                 order = [int(v) for v in np.argsort(np.array(u, dtype=np.int64))]    # int64 utility_array, default kind
+                if not _is_argsort(u, order):
+                    _viol(ctx, 'c12-ds:np-argsort-is-not-an-argsort', f'np.argsort({u}) = {order}',
+                          _world_desc(base, w, parent=(list(p) if p is not None else None)), prop=True)
+                ctx.dist('np_argsort_is_argsort', _is_argsort(u, order))
                 if [u, order] not in table:
                     table.append([u, order])
         arr_m, idx_m = m[1]
@@ -367,6 +377,10 @@ def batch_part(ctx, base, worlds, all_k=False):
             for flag, u, ch in h[1]:
                 if flag:
                     order = [int(v) for v in np.argsort(np.array(u, dtype=np.int64))]
+                    if not _is_argsort(u, order):
+                        _viol(ctx, 'c12-ds:np-argsort-is-not-an-argsort', f'np.argsort({u}) = {order}',
+                              _world_desc(base, w, parent=(list(p) if p is not None else None)), prop=True)
+                    ctx.dist('np_argsort_is_argsort', _is_argsort(u, order))
                     if [u, order] not in table:
                         table.append([u, order])
         tables[i] = table
@@ -459,7 +473,8 @@ def run_part(ctx):
         'part downsample: only_keep_pairs = leaves_to_compare(parent) (no repetition; every pair is in the file): a file that '
         'lacks a pair of the parent (RuntimeError, PErrPair in the model) is not generated',
         'part downsample: np.argsort is taken from the installed numpy on an int64 array (the dtype of utility_array); the model '
-        'quantifies over every function of the array (pick_pop sorter)',
+        'quantifies over every function of the array (pick_pop sorter); the hypothesis is_argsort of c12_numpy_rule_is_legal '
+        '(a permutation of the indices, values non-decreasing) is checked on every np.argsort result handed to the model',
         'part downsample (E): genes_at_a_time in {2, 3, 5}, one k per (table, parent) in rotation; queries without any '
         'reference gene are skipped there (covered by (B))',
     ]
